@@ -31,5 +31,6 @@ class Callbacks:
         self._callbacks[handle.callback_type].remove(handle)
 
     def __call__(self, callback_type, *args, **kwargs):
-        for handle in self._callbacks[callback_type]:
+        # iterate over a snapshot: a callback may (un)register callbacks while being notified
+        for handle in list(self._callbacks[callback_type]):
             handle(*args, **kwargs)
